@@ -145,6 +145,10 @@ CHECKS["C22"] = dict(engine="tlc+vh", level="model_checking", ref="4.11", techni
                      text="Fault enumeration driven by the specification: for every generated history and every store-write crash point the recovered tenants, API keys and pipelines (names, sources) must equal the model's last acknowledged state or that state plus the one in-flight operation; without a crash the live manager must equal the model after every operation.",
                      note="Trusted: the crashing StateStore wrapper (write-granular). Bounded: 2 tenants x 2 pipelines x 4 program shapes (incl. .distinct(), .limit(), sequences), histories of 5 (7) operations.")
 
+CHECKS["C28"] = dict(engine="tlc+vh", level="model_checking", ref="4.16", technique="TLA+ spec (TenantApi.tla): isolation reference (TLC checks the action property Isolation on it) enumerating request sequences; each sequence run through the real REST routes with warp::test; response classes and every tenant's state compared",
+                     text="The reference acts only on the authenticated tenant's entry (checked by TLC); the real API must serve / refuse each request like the reference (status details the property does not fix are left open) and leave every other tenant's pipeline, usage counter and source exactly as the reference says.",
+                     note="Trusted: warp::test drives the same filters the server mounts. Bounded: 3 tenants (two keys differing only in case), 10 endpoints, 5 credentials, sequences of 1..2 requests.")
+
 NOT_APPLICABLE = {
     "C41": "parser totality over arbitrary strings: no state/transition system to specify; a TLA+ model would only enumerate token strings (fuzzing under another name)",
     "C43": "LSP handler robustness over arbitrary text/cursor: per-call robustness, no protocol state in the property; outside model-based verification",
